@@ -74,6 +74,7 @@ type Exec struct {
 	Refix     []string // marshal -> ReadSession -> marshal differences seen at restart points (clause 1)
 	RefixAt   []int
 	ReadErrs  []string
+	AfterRead [][]int  // per restart, in order: BatchStart(), CurrentResume() type code, ParentRun() != nil right after ReadSession
 	FirstRead string   // runDeleted: why the first read over the reduced assets did not succeed (not a failure of C02)
 	CtxDiff   []string // differences between Session.CurrentContext() of the live and of the re-read session
 	CtxAt     []int
@@ -203,6 +204,11 @@ func (sc *Scenario) run(pattern []bool, checkFix bool) *Exec {
 			}
 			if restart {
 				s, sa = s2, sa2
+				rt := ""
+				if cr := s.CurrentResume(); cr != nil {
+					rt = cr.Type()
+				}
+				ex.AfterRead = append(ex.AfterRead, []int{b2i(s.BatchStart()), resumeTypeCode[rt], b2i(s.ParentRun() != nil)})
 			}
 		}
 		resetSources(sc.Seed, i+1) // before the resume is built (resumed_on) and applied
